@@ -48,8 +48,8 @@ func init() {
 }
 
 // SetRefreshTimers overrides the proxy's slot refresh timers (period, minimum spacing).
-func SetRefreshTimers(freq, minRate time.Duration) {
-	sutredis.VerifSetSlotsRefreshTimers(freq, minRate)
+func SetRefreshTimers(freq, minRate time.Duration) (time.Duration, time.Duration) {
+	return sutredis.VerifSetSlotsRefreshTimers(freq, minRate)
 }
 
 // RedisConfig builds a service config for the redis processor.
